@@ -205,25 +205,31 @@ def stepPk (s : S) : Out → Option S
     | none => none
   | .other => some s
 
+/-- `complete()` → `free_pid(pid, true)` → `throttled_op_done()`: the token goes back when the operation takes the final acknowledgement
+(it is waiting for exactly this acknowledgement, which is well-formed with an admissible code; a fast reply taken when the write ends
+is counted when it arrives) -/
+def releases (s : S) (a : Ack) : Bool :=
+  a.final && decide (a.pid ∈ s.holders) && (match s.slot a.pid with
+    | some sl => expects sl.kind sl.phase == some a.t && goodAck a sl.n && sl.fast.isNone
+    | none => false)
+
 def step (s : S) : Ev → Option S
   | .init op k n =>
     if (s.known op).isSome then none else some { s with known := upd s.known op (some (k, n)) }
   | .connUp rm =>
     let lim := rm.getD MAX_LIMIT
     some { s with connected := true, limit := lim, quota := lim, holders := [], wire := [] }
-  | .connDown => some { s with connected := false, holders := [], wire := [] }
+  | .connDown => some { s with connected := false, holders := [], wire := [], quota := s.limit }
   | .wr => if s.writing then none else some { s with writing := true }
   | .pk p => if s.writing then stepPk s p else none
   | .wrOk => if s.writing then some { s with writing := false, slot := fun p => (s.slot p).map Slot.onWrOk } else none
   | .wrFail => if s.writing then some { s with writing := false, slot := fun p => (s.slot p).map Slot.onWrFail } else none
   | .rx a =>
-    -- `complete()` → `free_pid(pid, true)` → `throttled_op_done()`: the token goes back when the operation takes the final acknowledgement
-    let rel := a.final && (match s.slot a.pid with
-      | some sl => expects sl.kind sl.phase == some a.t && goodAck a sl.n && sl.fast.isNone
-      | none => false)
-    let s1 := if a.final then { s with wire := s.wire.erase a.pid } else s
-    let s2 := if rel && a.pid ∈ s.holders then { s1 with holders := s.holders.erase a.pid, quota := s.quota + 1 } else s1
-    some { s2 with slot := upd s.slot a.pid ((s.slot a.pid).map (Slot.onRx · a)) }
+    some { s with
+      wire := if a.final then s.wire.erase a.pid else s.wire,
+      holders := if releases s a then s.holders.erase a.pid else s.holders,
+      quota := if releases s a then s.quota + 1 else s.quota,
+      slot := upd s.slot a.pid ((s.slot a.pid).map (Slot.onRx · a)) }
   | .doneOk op rcs props =>
     if s.isDone op then none else
     match s.pidOf op with
@@ -280,6 +286,23 @@ def doneIn (hist : List Ev) (op : Nat) : Prop := ∃ e ∈ hist, isDoneEv op e
 
 /-- a request packet of `op` carrying identifier `p` was written somewhere in the list -/
 def usesPid (hist : List Ev) (op p : Nat) : Prop := ∃ pk, Ev.pk pk ∈ hist ∧ pk.req = some (op, p)
+
+/-- what a broker sees of the flow control, read off the events alone: is a connection up, the Receive Maximum of its CONNACK
+(65535 when absent), and the identifiers of the QoS 1/2 PUBLISH packets written on it that no PUBACK, PUBCOMP or failing PUBREC
+has ended yet -/
+structure Wire where
+  connected : Bool := false
+  rm : Nat := 65535
+  inflight : List Nat := []
+
+def wireStep (w : Wire) : Ev → Wire
+  | .connUp rm => { connected := true, rm := rm.getD MAX_LIMIT, inflight := [] }
+  | .connDown => { w with connected := false, inflight := [] }
+  | .pk (.publish _ _ pid _ _) => if w.connected then { w with inflight := addWire w.inflight pid } else w
+  | .rx a => if a.final then { w with inflight := w.inflight.erase a.pid } else w
+  | _ => w
+
+def wireOf (tr : List Ev) : Wire := tr.foldl wireStep {}
 
 /-- the list contains events satisfying the predicates, in this order (not necessarily adjacent) -/
 def Chain : List (Ev → Prop) → List Ev → Prop
